@@ -44,6 +44,8 @@ struct Inputs {
     written_xmm: [bool; 16],
     with_hooks: bool,
     with_syscalls: bool,
+    /// the stack is a plain area the host mapped itself (no init_stack, hence no area called "Stack")
+    plain_stack: bool,
 }
 
 fn gen_inputs(rng: &mut Rng) -> Inputs {
@@ -62,7 +64,7 @@ fn gen_inputs(rng: &mut Rng) -> Inputs {
     for _ in 0..*rng.pick(&[0u64, 1, 2, 3, 6, 16]) {
         written_xmm[rng.below(16) as usize] = false;
     }
-    Inputs { prog, written, written_xmm, with_hooks: rng.below(2) == 0, with_syscalls }
+    Inputs { prog, written, written_xmm, with_hooks: rng.below(2) == 0, with_syscalls, plain_stack: rng.below(6) == 0 }
 }
 
 fn build(inp: &Inputs) -> Option<Axecutor> {
@@ -86,7 +88,12 @@ fn build(inp: &Inputs) -> Option<Axecutor> {
             catch(|| ax.reg_write_128(*x, ((mix64(i as u64 + 500) as u128) << 64) | mix64(i as u64 + 900) as u128)).ok()?.ok()?;
         }
     }
-    catch(|| ax.init_stack(0x2000)).ok()?.ok()?;
+    if inp.plain_stack {
+        catch(|| ax.mem_init_zero(0x7000_0000, 0x2000)).ok()?.ok()?;
+        catch(|| ax.reg_write_64(SR::RSP, 0x7000_1000)).ok()?.ok()?;
+    } else {
+        catch(|| ax.init_stack(0x2000)).ok()?.ok()?;
+    }
     ax.verif_set_rflags(p.init_flags);
     if inp.with_syscalls {
         catch(|| ax.handle_syscalls(vec![Syscall::Brk, Syscall::ArchPrctl, Syscall::Exit])).ok()?.ok()?;
@@ -332,6 +339,19 @@ impl Monitor for C20 {
         // the program and its explicit inputs depend on pid only: the REPLICAS copies run in different worker processes
         let mut prng = Rng::derive(col.seed ^ hash_str("C20-program"), pid, 3);
         let inp = gen_inputs(&mut prng);
+        // History is not an input either: in every second replica another machine - different code at the same
+        // addresses, run to its end and rendered - comes first in this process and on this thread. The digests of
+        // the replicas are compared across processes, so anything a machine leaves behind for the next one (a
+        // process-wide flag, a thread-local memo keyed by address) shows as a disagreement between replicas.
+        if (k % REPLICAS) % 2 == 1 {
+            let mut drng = Rng::derive(col.seed ^ hash_str("C20-decoy"), pid, k % REPLICAS);
+            let dinp = gen_inputs(&mut drng);
+            if let Some(mut d) = build(&dinp) {
+                let (rd, dd, xd, _) = run(&mut d, &dinp);
+                let _ = observable(&mut d, &rd, &dd, &xd);
+                col.count("decoy_machines_run_first", 1);
+            }
+        }
         let (Some(mut a), Some(mut b)) = (build(&inp), build(&inp)) else {
             col.count("build_failed", 1);
             return;
